@@ -198,7 +198,7 @@ def g_case(c):
         gobjs(b["objects"]), glist(gcall(e) for e in b["log"]), glist(gnat(max(x, 0)) for x in b["order"]),
         gobjs(l["objects"]), glist(gcall(e) for e in l["log"]), "true" if l["with_init"] else "false")
     first = "None" if c.get("first") is None else f"(Some {gnat(c['first'])})"
-    return f"(Case {heap} {gnat(c['root'])} {first} once {ans})"
+    return f"(Case {heap} {gnat(c['root'])} {first} once sonce {ans})"
 
 
 # ------------------------------------------------------------------ oracle (independent of the model)
@@ -317,18 +317,28 @@ def oracle(case):
     nodes_a = [dict(nd, init=[]) for nd in nodes]        # instance() without submit: no init task attached
     # ---- instance(): one call after the other on one store
     roots = ([case["first"]] if case.get("first") is not None else []) + [case["root"]]
-    done = set()
+    done, executed = set(), set()
     for r, log, ret in zip(roots, a["logs"], a["returned"]):
         data = dict(case=small, call=r)
         created = reachable(nodes_a, r, False, stop=done)
         check_posts("instance", nodes_a, created, log, out, data)
-        want = set()
+        want_all = set()
         for n in created:
-            want.update(nodes_a[n]["pre"])
+            want_all.update(nodes_a[n]["pre"])
+        # exactly once for the store: what an earlier call on the same store executed is not executed again
+        want = want_all - executed
         execs = [e["obj"] for e in log if e["k"] == "exec"]
-        if sorted(execs) != sorted(want):
+        if sorted(execs) == sorted(want):
+            pass
+        elif sorted(execs) == sorted(want_all):
+            out.append(dict(key="C13:instance:pretask-twice-shared-store",
+                            what="with one ObjectStore given to two instance() calls, a pre-task attached to configurations "
+                                 "created by both calls was executed by both (one runtime object, execute() twice)",
+                            data=dict(data, executed=execs, already_executed=sorted(want_all & executed))))
+        else:
             out.append(dict(key="C13:instance:pretasks-once", what="pre-tasks not executed exactly once each",
                             data=dict(data, executed=execs, expected=sorted(want))))
+        executed |= set(execs)
         check_ran("instance", nodes_a, log, out, data)
         kinds = [e["k"] for e in log]
         if "exec" in kinds and "post" in kinds[kinds.index("exec"):]:
@@ -499,7 +509,16 @@ def run(c: Check):
     once = bool(probe["once"])
     c.count("tree:loader-runs-" + ("each-lightweight-task-once" if once else "every-init-task-entry"))
     c.extra["probe"] = probe
-    header = HEADER + "Definition once := %s.\n" % ("true" if once else "false")
+    sonce = bool(probe["store_once"])
+    c.count("tree:store-runs-a-pre-task-" + ("once" if sonce else "once-per-call"))
+    header = (HEADER + "Definition once := %s.\n" % ("true" if once else "false")
+              + "Definition sonce := %s.\n" % ("true" if sonce else "false"))
+    if probe.get("id_reuse"):
+        c.violation("C13:instance:store-returns-object-of-dead-configuration",
+                    "an ObjectStore is keyed by id(config) and does not keep the configuration alive: a new configuration "
+                    "that gets the address of a dead one receives its runtime object (two configurations, one object; no "
+                    "__post_init__, parameters of the dead one)",
+                    dict(scenario="store = ObjectStore(); for i: M(v=i+1).instance(objects=store)", observed=probe["id_reuse"]))
     known_open = {k["key"] for k in c.known() if k.get("property") == "C13" and k.get("status") == "open"}
     good = []
     for case in cases:
